@@ -6,23 +6,24 @@ import (
 	"fmt"
 	"go/constant"
 	"go/types"
+	"golang.org/x/tools/go/ssa"
 	"regexp"
 	"sort"
 	"strings"
 )
 
 type specEnv struct {
-	fc   *fnCtx
-	fr   *frame
-	vars map[string]TV
-	st   *state
-	old  *state
-	prev *state
+	fc       *fnCtx
+	fr       *frame
+	vars     map[string]TV
+	st       *state
+	old      *state
+	prev     *state
 	prevVars map[string]TV
-	entry *state
-	rec  map[string]bool // records heap keys read (for opaque predicates)
-	pkg  string
-	src  string
+	entry    *state
+	rec      map[string]bool // records heap keys read (for opaque predicates)
+	pkg      string
+	src      string
 }
 
 func (fr *frame) specEnv(st, old *state) *specEnv {
@@ -255,7 +256,7 @@ func (env *specEnv) pkgConst(name string) (TV, bool) {
 			n, _ := constant.Int64Val(c.Val())
 			return TV{T: smtInt(n), Sort: "Int", Typ: c.Type()}, true
 		case constant.String:
-			return TV{T: e.u.lit(constant.StringVal(c.Val())), Sort: "Str", Typ: c.Type(), }, true
+			return TV{T: e.u.lit(constant.StringVal(c.Val())), Sort: "Str", Typ: c.Type()}, true
 		case constant.Bool:
 			if constant.BoolVal(c.Val()) {
 				return TV{T: "true", Sort: "Bool"}, true
@@ -652,6 +653,22 @@ func (env *specEnv) evalCall(x *SCall) TV {
 		argn(1)
 		a := env.eval(x.Args[0])
 		return TV{T: fmt.Sprintf("(and (> %s 0) (< %s %s))", refOf(a), refOf(a), env.st.alloc), Sort: "Bool"}
+	case "addrof": // addrof(x): the address of the local variable x (a variable whose address is taken in the body)
+		argn(1)
+		id, ok := x.Args[0].(*SIdent)
+		if !ok || env.fr == nil {
+			env.fail("addrof needs the name of a local variable")
+		}
+		for _, b := range env.fr.fn.Blocks {
+			for _, in := range b.Instrs {
+				if al, ok := in.(*ssa.Alloc); ok && al.Comment == id.Name {
+					if r, ok := env.fr.regs[al]; ok {
+						return TV{T: r, Sort: "Int", Typ: al.Type()}
+					}
+				}
+			}
+		}
+		env.fail("unknown identifier %s (addrof)", id.Name)
 	case "local": // local(x): the slice or map x has not become reachable from the heap or a callee
 		argn(1)
 		a := env.eval(x.Args[0])
